@@ -13,12 +13,11 @@ open GooseVerif.Model.Codec GooseVerif.Model.Prims GooseVerif.Gen
 
 /-- T-gen obligation: the four codecs of machine/prims.go are exactly these delegations. -/
 theorem delegations_ok :
-    (Prim.machineBodies.filter (fun p => p.1 ∈ ["UInt64Get", "UInt32Get", "UInt64Put", "UInt32Put"])) =
+    Prim.codecBodies =
     [("UInt64Get", "func (p []byte) uint64 { return ‹encoding/binary›.LittleEndian.Uint64(p) }"),
      ("UInt32Get", "func (p []byte) uint32 { return ‹encoding/binary›.LittleEndian.Uint32(p) }"),
      ("UInt64Put", "func (p []byte, n uint64) { ‹encoding/binary›.LittleEndian.PutUint64(p, n) }"),
-     ("UInt32Put", "func (p []byte, n uint32) { ‹encoding/binary›.LittleEndian.PutUint32(p, n) }")] := by
-  decide
+     ("UInt32Put", "func (p []byte, n uint32) { ‹encoding/binary›.LittleEndian.PutUint32(p, n) }")] := rfl
 
 /-- T-gen obligation: the extractor recognised the shape of all four library functions. -/
 theorem tables_recognised :
